@@ -234,7 +234,7 @@ def check_analyser(prog, rep, fi):
                 ok = _elements_loop_sound(arm)
                 rep.ob("R04.1", construct, ok, "answers the maximum over the element degrees, None if any element is non-polynomial" if ok else "element loop does not propagate None / does not take the maximum", loc=f"{fi.module.rel}:{s.node.lineno}", detail="elements-max")
             else:
-                raise AnalysisError(f"{construct}: answer form {form} not recognised")
+                rep.undecided(f"{construct}: answer form {form} not recognised")
             nobs += 1
     # default
     dsites = answer_sites(d.default, None) if d.default else []
@@ -373,7 +373,7 @@ def degree_forms(prog, fi, _other=None):
 
 def check(prog, rep):
     for q in ANALYSERS:
-        check_analyser(prog, rep, prog.func(q))
+        rep.section(check_analyser, prog, rep, prog.func(q))
     # ------------------------------------------------------------------ R04.4 consumers
     E = prog.cls("Expression")
     for owner, fn in (("Expression.is_linear", E.methods.get("is_linear")), ("analysis.is_linear", prog.func("optyx.analysis:is_linear")), ("analysis.is_quadratic", prog.func("optyx.analysis:is_quadratic"))):
